@@ -396,7 +396,7 @@ func genStub(pkg LabPkg, code string) (string, error) {
 				fmt.Fprintf(&sb, "\ts.T.Add(\"handler\", %q, map[string]any{\"request\": labrt.Describe(request)})\n", name)
 				sb.WriteString("\tif s.O.StrictHandlerErr {\n\t\treturn nil, errors.New(\"handler error\")\n\t}\n")
 				sb.WriteString("\tv, err := labrt.MakeResponse(Types(), s.O)\n\tif err != nil || v == nil {\n\t\treturn nil, err\n\t}\n")
-				fmt.Fprintf(&sb, "\tr, ok := v.(%s)\n\tif !ok {\n\t\treturn nil, fmt.Errorf(\"lab: %%T is not a response of %s\", v)\n\t}\n\treturn r, nil\n}\n\n", respType, name)
+				fmt.Fprintf(&sb, "\tr, ok := v.(%s)\n\tif !ok {\n\t\treturn nil, fmt.Errorf(\"lab: %%T is not a response of %s\", v)\n\t}\n\tif s.O.StrictErrWithResp {\n\t\treturn r, errors.New(\"handler error\")\n\t}\n\treturn r, nil\n}\n\n", respType, name)
 			}
 			fmt.Fprintf(&sb, `func strictMws(t *labrt.Trace, o labrt.Options) []StrictMiddlewareFunc {
 	var out []StrictMiddlewareFunc
